@@ -37,3 +37,9 @@ From HC Require Import Map2.Orbit2 Map2.Kern2 Map2.KOps2 Map2.KTx2Proofs.
 Theorem C06_stepk `{Sig} : forall fa st o e, fst (stepk fa st o) = RErr e -> snd (stepk fa st o) = st.
 Proof. exact stepk_err_noop. Qed.
 Print Assumptions C06_stepk.
+
+(** Every public 3-map editing step, any fault position. *)
+From HC Require Import Map3.Ops3 Map3.Tx3Proofs.
+Theorem C06_step3 `{Sig} : forall fa st o e, fst (step3 fa st o) = RErr e -> snd (step3 fa st o) = st.
+Proof. exact step3_err_noop. Qed.
+Print Assumptions C06_step3.
